@@ -2,7 +2,7 @@
    Statements only; proofs in Proofs/C11_*.v.  Model: Model/Reloc.v (hand model of Relocation.apply of each
    class, BitView / Token writes, get_symbol_id_value, Linker._do_relocation; wrap_negative/align from Gen.bitfun,
    regenerated per run); Spec: Spec/RelocSpec.v (ISA decoders); Gen/Tab_relocs.v: every relocation class of /repo. *)
-From PV Require Import Lib.Py Spec.RelocSpec Gen.bitfun Model.Reloc Gen.Tab_relocs Proofs.C11_bits Proofs.C11_final Proofs.C11_tie Proofs.C11_relocs3 Proofs.C11_relocs4.
+From PV Require Import Lib.Py Spec.RelocSpec Gen.bitfun Model.Reloc Gen.Tab_relocs Proofs.C11_bits Proofs.C11_final Proofs.C11_tie Proofs.C11_relocs3 Proofs.C11_relocs4 Model.RelocFix Proofs.C11_blfix.
 Open Scope Z_scope.
 
 Theorem c11_bitview_writes_field : forall data length a b v,
@@ -215,9 +215,22 @@ Print Assumptions c11_exact_x86_abs64.
 
 (* tie T: the hand model equals, for all arguments, the definitions regenerated (c11_flatten + py2coq) from the
    calc/apply methods of the current source (24 classes; arm ldr_imm12/adr_imm12 and thumb b_imm11_imm6 stay tie H) *)
-Theorem c11_tie_bodies : forall k A S d P, apply k A S d P = Proofs.C11_tie.gen_apply k A S d P.
+(* model_apply k = apply k, except for a class whose repair the current source already has (Gen/reloc_switch.v,
+   probed per run): then it is the repaired hand model (Model/RelocFix.v) *)
+Theorem c11_tie_bodies : forall k A S d P,
+  Proofs.C11_tie.model_apply k A S d P = Proofs.C11_tie.gen_apply k A S d P.
 Proof. exact Proofs.C11_tie.tie_bodies. Qed.
 Print Assumptions c11_tie_bodies.
+
+(* the repaired Thumb BL relocation (fixes/C11-thumb-bl-j1j2.diff: J1/J2 written) is exact on the whole +-16 MiB
+   range of encoding T1, for every template *)
+Theorem c11_thumb_bl_full_range : forall S P data, bytes_ok 4 data -> S mod 2 = 0 -> P mod 2 = 0 ->
+  - 2 ^ 24 <= S - (P + 4) < 2 ^ 24 - 2 ->
+  exists d', Model.RelocFix.apply_bl_fixed S data P = Ok d' /\ bytes_ok 4 d' /\ thumb_bl_target (le_word d') P = S /\
+    bits (le_word d') 11 5 = bits (le_word data) 11 5 /\ bits (le_word d') 28 1 = bits (le_word data) 28 1 /\
+    bits (le_word d') 30 2 = bits (le_word data) 30 2.
+Proof. exact Proofs.C11_blfix.thumb_bl_full_range. Qed.
+Print Assumptions c11_thumb_bl_full_range.
 
 Theorem c11_table_sizes : forallb table_row_ok reloc_table = true.
 Proof. exact table_sizes. Qed.
